@@ -131,7 +131,14 @@ def run(ctx):
         lim = ctx.rng.choice([1, 2, 3, 5])
         r_f, _ = qlib.select(ctx.impl, "path, size", "from %s archives%s where size > 5 order by size desc, path limit %d" % (rb, opt, lim), cwd=ctx.scratch)
         r_fa, _ = qlib.select(ctx.impl, "path, size", "from %s archives%s where size > 5" % (rb, opt), cwd=ctx.scratch)
-        return r_arc, r_no, cols, rc, r_f, r_fa, lim
+        # unordered LIMIT with a filter: the first N rows of the filtered search (members a filter rejects do not use up the limit)
+        ul = []
+        for flt in ("size > 5", "name like '%a%'", "size = 0", "is_dir = false and size < 60"):
+            full_u, _ = qlib.select(ctx.impl, "path", "from %s archives%s where %s" % (rb, opt, flt), cwd=ctx.scratch)
+            for nlim in (1, 2, 4):
+                lim_u, ru = qlib.select(ctx.impl, "path", "from %s archives%s where %s limit %d" % (rb, opt, flt, nlim), cwd=ctx.scratch)
+                ul.append((flt, nlim, full_u, lim_u, ru["query"]))
+        return r_arc, r_no, cols, rc, r_f, r_fa, lim, ul
 
     res = pmap(one, jobs)
     exprs = []
@@ -141,7 +148,7 @@ def run(ctx):
         exprs.append(walklib.walk_expr([(walklib.opts_term(0, j["mx"], j["dfs"], arc=True), rb, os.path.realpath(j["root"]),
                                          walklib.node_term(j["obs"], zips=zl), fstree.count(j["obs"]) + 1)]))
     model = walklib.safe_walk_eval(ctx, exprs, "c19", 8)
-    for j, (r_arc, r_no, cols, rc, r_f, r_fa, lim), m in zip(jobs, res, model):
+    for j, (r_arc, r_no, cols, rc, r_f, r_fa, lim, ul), m in zip(jobs, res, model):
         st["evaluations"] += 1
         rb = os.path.basename(j["root"])
         rows_arc = [v.decode("utf-8", "surrogateescape") for v in r_arc["values"]]
@@ -193,6 +200,12 @@ def run(ctx):
                     break
         if not ok:
             continue
+        for flt, nlim, full_u, lim_u, qu in ul:
+            st["evaluations"] += 1
+            if full_u is None or lim_u is None or lim_u != full_u[:nlim]:
+                ctx.violation("impl-violates-spec", "`where %s limit %d` over archive members: got %s, the first rows of the unlimited filtered search are %s" % (flt, nlim, lim_u, (full_u or [])[:nlim]),
+                              input=dict(case, argv=[qu]))
+                break
         # filter + order + limit apply to members like to ordinary entries
         if r_f is not None and r_fa is not None:
             want = sorted(r_fa, key=lambda x: (-int(x[1]), x[0]))[:lim]
@@ -229,6 +242,6 @@ def run(ctx):
     st["hist"]["archives_with_unopenable_member"] = getattr(ctx, "badmember_count", 0)
     ctx.coverage.update(
         evaluations=st["evaluations"], distinct_nontrivial=len(st["distinct"]), traces_validated_against_impl=st["agreed"],
-        rule="random trees with 1-4 zip archives (0-8 members: nested dirs, stored/deflated, every file type and permission bits in the unix mode, dates across months incl. months shorter than today's day, unicode/space names), extensions .zip/.jar/.war/.ear in mixed case, a zip under another extension, a non-empty directory named *.zip / *.jar (and a link to it named *.ear), corrupt archives (truncated, flipped central-directory bytes, garbage), archives with one member that cannot be opened (marked encrypted; it is skipped, the rest listed) x bfs/dfs x maxdepth: ordinary rows unchanged, members exactly once after their archive in index order, member columns (name, size, is_dir, mode, modified) = what the archive stores, WHERE/ORDER BY/LIMIT apply; exact row sequence vs model.Walk; plus every truncation point of one archive. non-trivial = at least two members",
+        rule="random trees with 1-4 zip archives (0-8 members: nested dirs, stored/deflated, every file type and permission bits in the unix mode, dates across months incl. months shorter than today's day, unicode/space names), extensions .zip/.jar/.war/.ear in mixed case, a zip under another extension, a non-empty directory named *.zip / *.jar (and a link to it named *.ear), corrupt archives (truncated, flipped central-directory bytes, garbage), archives with one member that cannot be opened (marked encrypted; it is skipped, the rest listed) x bfs/dfs x maxdepth: ordinary rows unchanged, members exactly once after their archive in index order, member columns (name, size, is_dir, mode, modified) = what the archive stores, WHERE/ORDER BY/LIMIT apply (ordered top N, and the unordered first N of filtered searches); exact row sequence vs model.Walk; plus every truncation point of one archive. non-trivial = at least two members",
         samples=st["samples"], distribution=dict(st["hist"]))
     return ctx.finish(trusted=["the zip listing (which members a readable archive has) is an input: Python zipfile writes the archives, the zip crate reads them; corrupt archives are only required not to abort or lose other rows"])
